@@ -812,6 +812,15 @@ def list_builder(fn, name):
     v = asg[0].value
     if isinstance(v, ast.Call) and isinstance(v.func, ast.Name) and v.func.id == "list" and len(v.args) == 1 and not v.keywords:
         v = v.args[0]
+    if isinstance(v, ast.Call) and isinstance(v.func, ast.Name) and v.func.id == "map" and len(v.args) == 2 and not v.keywords \
+            and isinstance(v.args[0], ast.Lambda) and len(v.args[0].args.args) == 1 and not v.args[0].args.defaults:
+        # map(lambda x: E, S) is (E for x in S)
+        lam = v.args[0]
+        v = ast.GeneratorExp(elt=lam.body, generators=[ast.comprehension(target=ast.Name(id=lam.args.args[0].arg, ctx=ast.Store()), iter=v.args[1], ifs=[], is_async=0)])
+    elif isinstance(v, ast.Call) and isinstance(v.func, ast.Name) and v.func.id == "map" and len(v.args) == 2 and not v.keywords \
+            and isinstance(v.args[0], ast.Name):
+        v = ast.GeneratorExp(elt=ast.Call(func=v.args[0], args=[ast.Name(id="_c0", ctx=ast.Load())], keywords=[]),
+                             generators=[ast.comprehension(target=ast.Name(id="_c0", ctx=ast.Store()), iter=v.args[1], ifs=[], is_async=0)])
     if isinstance(v, (ast.ListComp, ast.GeneratorExp)):
         gens = v.generators
         if any(g.ifs for g in gens) or not isinstance(gens[0].target, ast.Name):
@@ -860,6 +869,54 @@ def list_builder(fn, name):
     if consts:
         entries = [(c if c is None else _txt(_Inline(consts).visit(ast.parse(c, mode="eval").body)), _txt(_Inline(consts).visit(ast.parse(e, mode="eval").body))) for c, e in entries]
     return _txt(loop.iter), entries
+
+
+def returned_map(fn):
+    """what a function returns when that is one value per element of a sequence, in order:
+    (wrapper, iterable text, element text over `_c0`) with wrapper None (a list) or "join:<sep>" (`sep.join(...)`); None otherwise"""
+    rets = [r for r in own_nodes(fn) if isinstance(r, ast.Return)]
+    if len(rets) != 1 or rets[0] is not fn.body[-1] or rets[0].value is None:
+        return None
+    e = rets[0].value
+    wrapper = None
+
+    def last_def(name):
+        ds = [a for a in fn.body if (isinstance(a, ast.Assign) and len(a.targets) == 1 and isinstance(a.targets[0], ast.Name) and a.targets[0].id == name)
+              or (isinstance(a, ast.AnnAssign) and isinstance(a.target, ast.Name) and a.target.id == name and a.value is not None)]
+        alld = [a for a in own_nodes(fn) if isinstance(a, (ast.Assign, ast.AnnAssign, ast.AugAssign)) and
+                any(isinstance(t, ast.Name) and t.id == name and isinstance(t.ctx, ast.Store) for t in ast.walk(a))]
+        return ds[0].value if len(ds) == 1 and len(alld) == 1 else None
+
+    for _ in range(4):
+        if isinstance(e, ast.Call) and isinstance(e.func, ast.Attribute) and e.func.attr == "join" and isinstance(e.func.value, ast.Constant) \
+                and isinstance(e.func.value.value, str) and len(e.args) == 1 and not e.keywords and wrapper is None:
+            wrapper = "join:" + e.func.value.value
+            e = e.args[0]
+            continue
+        if isinstance(e, ast.Name):
+            lb = list_builder(fn, e.id)
+            if lb is not None:
+                it, entries = lb
+                if len(entries) == 1 and entries[0][0] is None:
+                    return wrapper, it, entries[0][1]
+                return None
+            d = last_def(e.id)
+            if d is None:
+                return None
+            e = d
+            continue
+        break
+    # an expression: evaluate it as the single definition of a scratch name
+    import copy
+    scratch = ast.FunctionDef(name="_", args=fn.args, body=[ast.Assign(targets=[ast.Name(id="_ret", ctx=ast.Store())], value=copy.deepcopy(e))], decorator_list=[])
+    ast.fix_missing_locations(scratch)
+    lb = list_builder(scratch, "_ret")
+    if lb is None:
+        return None
+    it, entries = lb
+    if len(entries) == 1 and entries[0][0] is None:
+        return wrapper, it, entries[0][1]
+    return None
 
 
 def fmt_parts(fn, e, keep=()):
